@@ -263,7 +263,7 @@ def _create_syntax_error_code(builder, input_text, err):
   # and finally translated back into a line number and 1-based position to report to the user. An
   # example is that "$x*" is translated to "return x*", and the syntax error in the transformed
   # python code (line 2 offset 9) needs to be translated to be in line 2 offset 3.
-  output_offset = output_ln.line_to_offset(err.lineno, err.offset - 1 if err.offset else 0)
+  output_offset = output_ln.line_to_offset(err.lineno or 1, err.offset - 1 if err.offset else 0)
   input_offset = builder.map_back_offset(output_offset)
   line, col = input_ln.offset_to_line(input_offset)
   input_text_line = input_text.splitlines()[line - 1]
@@ -282,7 +282,8 @@ def _create_syntax_error_code(builder, input_text, err):
     message += friendly_errors.friendly_message(err)
 
   return "%s\nraise %s(%r, ('usercode', %r, %r, %r))" % (
-    textbuilder.line_start_re.sub('# ', input_text.rstrip()),
+    # Characters that end a line for Python (or aren't allowed at all) must not end the comment.
+    textbuilder.line_start_re.sub('# ', re.sub(r'[\r\x0c\x00]', ' ', input_text.rstrip())),
     err_type.__name__, message, line, col + 1, input_text_line)
 
 #----------------------------------------------------------------------
